@@ -28,18 +28,21 @@ For toc, and for the extensions that add an inline pattern, the statements are w
     toc           `C16_noninterference_toc_tree`: the trigger is stated on the element tree of the run WITHOUT toc
                   (`treeX`, the tree handed to the serializer): no `h1`–`h6` and no childless element whose stripped
                   text is `[TOC]`, and the tree stage does not raise (`tocTriggerFree`)
-    wikilinks     `C16_noninterference_wikilinks_partial`: no `[` at all (stronger than "no `[[`"), and the run without
-                  the extension is not out of fuel
+    wikilinks     `C16_noninterference_wikilinks_tree_partial`: the exact trigger `[[`, stated on the element tree the
+                  inline stage is run on (`blockTreeX`): no text or tail contains `[[` (`wikiTriggerFree`), and the
+                  run without the extension is not out of fuel;
+                  `C16_noninterference_wikilinks_partial`: stated on the source, but with the stronger trigger "no
+                  `[` at all", and the run without the extension is not out of fuel
     nl2br         `C16_noninterference_nl2br_tree_partial`: the trigger is stated on the element tree the inline stage
                   is run on (`blockTreeX`): no line feed in any text or tail (so: one-line paragraphs, no code
                   block), and the run without the extension is not out of fuel
 
     footnotes     `C16_noninterference_footnotes_partial`: no `[^`, toc not enabled, the run without the extension is
-                  not out of fuel, and two facts about that run which hold on every document of the correspondence
-                  runs but are not proved here: the output of its inline stage has no `div` of class `footnote`
-                  (`fnDivFree`; `FootnotePostTreeprocessor` looks for them), and its final output does not contain
-                  `zz1337820767766393qq` / `qq3936677670287331zz`, the inner strings of the two placeholders that
-                  `FootnotePostprocessor` replaces (`fnPlaceholderFree`)
+                  not out of fuel, and a fact about that run which holds on every document of the correspondence
+                  runs but is not proved here: its final output does not contain `zz1337820767766393qq` /
+                  `qq3936677670287331zz`, the inner strings of the two placeholders that `FootnotePostprocessor`
+                  replaces (`fnPlaceholderFree`).  (That `FootnotePostTreeprocessor` finds no `div` of class
+                  `footnote` is proved: `fnDivFree_holds`, `Lemmas/InlineXTags.lean`.)
 
 The hypothesis `convertX … ≠ .oof` is there because the model's fuel for the loops of `__handleInline` is a function
 of the length of the pattern table (`InlineX.loopFuelX`): with the extension's pattern registered the run has MORE
@@ -67,7 +70,8 @@ import MdVerif.Lemmas.PipelineXInert
 import MdVerif.Lemmas.PipelineXInertAttr3
 import MdVerif.Lemmas.PipelineXInertSim
 import MdVerif.Lemmas.PipelineXInertToc
-import MdVerif.Lemmas.PipelineXInertFn
+import MdVerif.Lemmas.PipelineXInertFnDiv
+import MdVerif.Lemmas.PipelineXInertWiki
 
 namespace MdVerif.PipelineX
 open Py Pipeline BlockExt
@@ -196,6 +200,20 @@ example : '[' ∉ normText {} "# T\n\na ]] b".toList := by decide +kernel
 example : convertX {} {} "# T\n\na ]] b".toList ≠ .oof := by decide +kernel
 example : convertX { wikilinks := true } {} "[[a b]]".toList ≠ convertX {} {} "[[a b]]".toList := by decide +kernel
 
+/-- **wikilinks**, partial, with the exact trigger: inert on a source such that no text and no tail of the element
+    tree the inline stage is run on contains `[[` (`wikiTriggerFree`, a decidable predicate of the block stage), when
+    the run without it is not out of fuel.  The invariant "no `[[`" is not closed under concatenation; the inline
+    stage keeps it because what it puts between two pieces of a text (placeholders, escapes, stashed strings) is
+    never empty and contains no `[` (`Lemmas/InlineXInvP*.lean`, `InlineX.sep_noDbl`). -/
+theorem C16_noninterference_wikilinks_tree_partial (x : Exts) (cfg : Cfg) (src : Str)
+    (h : wikiTriggerFree { x with wikilinks := false } cfg src = true)
+    (hfuel : convertX { x with wikilinks := false } cfg src ≠ .oof) :
+    convertX { x with wikilinks := true } cfg src = convertX { x with wikilinks := false } cfg src :=
+  convertX_wikilinks_tree { x with wikilinks := false } rfl cfg src h hfuel
+
+example : wikiTriggerFree {} {} "# T\n\na [b][c] ]] [d](e) \\[x]\n\n* [ [y]]".toList = true := by decide +kernel
+example : convertX {} {} "# T\n\na [b][c] ]] [d](e) \\[x]\n\n* [ [y]]".toList ≠ .oof := by decide +kernel
+
 /-! ### nl2br -/
 
 /-- **nl2br**, partial: inert on a source whose element tree, as the inline stage gets it, has no line feed in any
@@ -213,22 +231,20 @@ example : convertX { nl2br := true } {} "a\nb".toList ≠ convertX {} {} "a\nb".
 
 /-! ### footnotes -/
 
-/-- **footnotes**, partial: inert on a source without `[^` when toc is not enabled, under three hypotheses on the run
-    WITHOUT footnotes: it is not out of fuel; the output of its inline stage has no `div.footnote` (`fnDivFree`);
-    its final output does not contain the inner strings of the placeholders of `FootnotePostprocessor`
-    (`fnPlaceholderFree`).  All three are decidable; the last two are invariants of the pipeline that are not proved
-    here (the placeholders are `STX zz1337820767766393qq ETX`, `STX qq3936677670287331zz ETX`). -/
+/-- **footnotes**, partial: inert on a source without `[^` when toc is not enabled, under two hypotheses on the run
+    WITHOUT footnotes: it is not out of fuel; its final output does not contain the inner strings of the placeholders
+    of `FootnotePostprocessor` (`fnPlaceholderFree`, decidable; the placeholders are `STX zz1337820767766393qq ETX`
+    and `STX qq3936677670287331zz ETX`, which no stage generates without the extension — an invariant of the pipeline
+    that is not proved here). -/
 theorem C16_noninterference_footnotes_partial (x : Exts) (cfg : Cfg) (src : Str) (htoc : x.toc = false)
     (h : lacksN "[^" cfg src)
     (hfuel : convertX { x with footnotes := false } cfg src ≠ .oof)
-    (hdiv : fnDivFree { x with footnotes := false } cfg src = true)
     (hph : fnPlaceholderFree (convertX { x with footnotes := false } cfg src) = true) :
     convertX { x with footnotes := true } cfg src = convertX { x with footnotes := false } cfg src :=
-  convertX_footnotes { x with footnotes := false } rfl htoc cfg src h hfuel hdiv hph
+  convertX_footnotes' { x with footnotes := false } rfl htoc cfg src h hfuel hph
 
 example : lacksN "[^" {} "# T\n\npara *one* [a]\n\n* a\n* b".toList := by decide +kernel
 example : convertX {} {} "# T\n\npara *one* [a]\n\n* a\n* b".toList ≠ .oof := by decide +kernel
-example : fnDivFree {} {} "# T\n\npara *one* [a]\n\n* a\n* b".toList = true := by decide +kernel
 example : fnPlaceholderFree (convertX {} {} "# T\n\npara *one* [a]\n\n* a\n* b".toList) = true := by decide +kernel
 example : convertX { footnotes := true } {} "a[^1]\n\n[^1]: b".toList ≠ convertX {} {} "a[^1]\n\n[^1]: b".toList := by
   decide +kernel
